@@ -880,9 +880,12 @@ func (env *SpecEnv) applySpec(sf *SpecFunc, args []Val, n *SNode) Val {
 			terms = append(terms, c, l)
 			sorts = append(sorts, "(Array Int Int)", "Int")
 		case ps != "":
-			if a.K == KNil {
+			switch {
+			case a.K == KNil:
 				terms = append(terms, "0")
-			} else {
+			case a.K == KArray && len(a.Sub) == 1:
+				terms = append(terms, a.Sub[0].S) // a Go array of scalars passed as a sequence
+			default:
 				terms = append(terms, a.S)
 			}
 			sorts = append(sorts, ps)
